@@ -113,6 +113,17 @@ def run(case):
             fd = float(np.linalg.norm((path[-1, i] - path[0, i]) @ M))
             if abs(ai.sum() - fd) > 1e-9 * max(1.0, fd):
                 raise Violation('amplitudes-sum-to-final-distance', f'atom {i}: sum {ai.sum()!r} vs final distance {fd!r}')
+    # the constructor's other input form: per-frame displacements plus starting positions, where the atoms have already moved in the
+    # first stored frame (the starting point is base_positions): amplitudes still sum to the final distance from the starting point
+    for i in range(min(N, 2)):
+        stp = np.concatenate([path[1:2, i : i + 1] - path[:1, i : i + 1], np.diff(path[:, i : i + 1], axis=0)], axis=0)  # first row = a real step
+        base = path[0, i : i + 1] - np.floor(path[0, i : i + 1])
+        td = cases.trajectory(stp, sym[i : i + 1], M, dt, temp, case['species_kind'], coords_are_displacement=True, base_positions=base)
+        fd = float(np.linalg.norm(stp.sum(axis=0)[0] @ M))
+        ld = float(np.asarray(gcall(td.distances_from_base_position))[0, -1])
+        ad = np.array(gcall(gcall(td.metrics).amplitudes), float)
+        if abs(ld - fd) > 1e-9 * max(1.0, fd) or abs(ad.sum() - fd) > 1e-9 * max(1.0, fd):
+            raise Violation('amplitudes-sum-to-final-distance', f'displacement input whose first row is a step: sum of amplitudes {ad.sum()!r}, distance from the starting point {ld!r}, base -> final is {fd!r}')
     if not np.isfinite(got['attempt_frequency']) or got['attempt_frequency'] <= 0:
         raise Violation('attempt-frequency-defined', f'{got["attempt_frequency"]!r}')
 
